@@ -101,3 +101,101 @@ def run(prog, rule="R-DIGITSEEN", floor=2):
     res.counts["literal_scanners"] = n
     res.floor("literal scanners (switch over '0'..'9' in a function returning a count)", n, floor)
     return res
+
+
+def run_expmark(prog, rule="R-EXPMARK", floor=1):
+    """an exponent marker is part of the number only when an exponent follows.  In a literal scanner that has cases for 'e' / 'E', no return
+    hands back a count that still includes a marker after which no digit case was executed: on every path from the marker case to a
+    return that passes no digit case, the count is re-assigned (cut back to the end of the mantissa) - same path-sensitive dataflow and
+    flag tracking as R-DIGITSEEN.  Names may begin with e / E in the LP dialect: `3ex` is 3 times `ex`; a scanner that swallows the `e`
+    hands the coefficient to the column `x`."""
+    res = RuleResult(rule, "no return of a literal scanner hands back a count that includes an exponent marker after which no digit was consumed")
+    n = 0
+    for f in sorted(prog.funcs.values(), key=lambda x: x.key):
+        if f.live is None or "_dbl." in f.unit or "_mpf." in f.unit or not f.unit.startswith("qsopt_ex/") or "int" not in (f.ret or ""):
+            continue
+        lab = {bid: f.blocks[bid]["l"][1] for bid in f.live if f.blocks[bid].get("l", [""])[0] == "case"}
+        if not DIGITS <= set(lab.values()) or not ({101, 69} & set(lab.values())):
+            continue
+        rets = [e for b, i, e in f.elements() if e[0] == "R" and e[1] is not None and is_var(e[1], kind="l")]
+        if not rets:
+            continue
+        cnt = strip(rets[0][1])[2]
+
+        def body_of(bids):
+            out = set()
+            for bid in bids:
+                x = bid
+                for _ in range(12):
+                    if f.blocks[x]["e"]:
+                        out.add(x)
+                        break
+                    ss = [s for s in prog.live_succs(f, f.blocks[x]) if s is not None]
+                    if len(ss) != 1:
+                        break
+                    x = ss[0]
+            return out
+        dblocks = body_of([b for b, v in lab.items() if v in DIGITS])
+        eblocks = body_of([b for b, v in lab.items() if v in (101, 69)])
+        assigned = collections.defaultdict(list)
+        for b, i, e in f.elements(live_only=False):
+            if e[0] == "A" and is_var(e[1][2], kind="l"):
+                assigned[strip(e[1][2])[2]].append(e[1][3] if e[1][1] == "=" else None)
+            elif e[0] == "D":
+                for n2, init in e[1]:
+                    if init is not None:
+                        assigned[n2].append(init)
+            elif e[0] == "U" and is_var(e[1][2], kind="l"):
+                assigned[strip(e[1][2])[2]].append("inc")
+        flags = sorted(v for v, rs in assigned.items() if v != cnt and rs and all(r == "inc" or (r is not None and const_of(r) is not None) for r in rs))[:12]
+        names = [cnt] + flags
+        cells = IntCells(names, lambda st, c: st[1][names.index(c)], lambda st, c, v: (st[0], st[1][:names.index(c)] + (v,) + st[1][names.index(c) + 1:]))
+        bad = {}
+        n += 1
+        res.obligations += 1
+        res.nontrivial += 1
+
+        # st[0] = (marker open, count cut back since)
+        def xfer(b, i, e, st):
+            ae, re_ = st[0]
+            if i == 0 and b["id"] in eblocks:
+                ae, re_ = True, False
+            if i == 0 and b["id"] in dblocks and b["id"] not in eblocks:
+                ae = False
+            if e[0] == "A" and e[1][1] == "=" and is_var(e[1][2], kind="l", name=cnt) and ae:
+                re_ = True
+            st = ((ae, re_), st[1])
+            if e[0] == "D":
+                out = [st]
+                for name, init in e[1]:
+                    nxt = []
+                    for s_ in out:
+                        r = cells.declare(s_, name, init)
+                        nxt.extend(r if r is not None else [s_])
+                    out = nxt
+                return out
+            if e[0] == "A":
+                r = cells.assign(st, e[1][2], e[1][3], e[1][1])
+                if r is not None:
+                    return r
+            if e[0] == "U" and is_var(e[1][2], kind="l") and norm_local(strip(e[1][2])[2]) in names:
+                nm = norm_local(strip(e[1][2])[2])
+                if "++" in e[1][1]:
+                    return [cells.put(st, nm, NZ)]
+                return [cells.put(st, nm, Z), cells.put(st, nm, NZ)]
+            if e[0] == "R" and e[1] is not None:
+                if NZ in cells.values(st, e[1]) and ae and not re_:
+                    bad.setdefault(e[2], (b["id"], st))
+            return [st]
+
+        flw = Flow(prog, f, [((False, False), tuple(Z for _ in names))], xfer, lambda c, t, st: cells.refine(c, t, st), max_visits=800000).run()
+        if bad:
+            loc, (bid, st) = sorted(bad.items())[0]
+            res.violations.append(Violation(rule, "%s|count includes a bare exponent marker" % f.name, f.name, short_loc(loc),
+                                            "%s can return a count %s that includes an 'e' / 'E' after which no digit was consumed ('3ex': the scanner takes "
+                                            "'3e' and the caller continues behind it)" % (f.name, cnt), path=flw.witness(bid, st)))
+        else:
+            res.sample({"function": f.name, "count": cnt, "flags_tracked": flags, "verdict": "a bare marker is never part of the count"}, limit=6)
+    res.counts["literal_scanners_with_an_exponent_case"] = n
+    res.floor("literal scanners with an exponent marker case", n, floor)
+    return res
